@@ -16,7 +16,10 @@ import (
 	"fmt"
 	"math/big"
 	"math/rand"
+	"runtime"
 	"strings"
+	"sync"
+	"sync/atomic"
 	"testing"
 	"testing/synctest"
 	"time"
@@ -615,4 +618,81 @@ func TestC34(t *testing.T) {
 		ml[fmt.Sprintf("max_live_entries_lt_%d", 1<<b)] = n
 	}
 	r.Set("limiter_sequences_by_max_live_entries", ml)
+
+	// ================= D: simultaneous first contact of one group ================================
+	// "more than burst + rate x elapsed events allowed" must also hold when the events of a group
+	// arrive at the same moment on different goroutines (the accept path runs one goroutine per
+	// connection). Real time here: the rate is one token per ~11.5 days, so elapsed time adds
+	// nothing and the bound is exactly the burst, whatever the scheduler does. Each round uses a
+	// group the quota has never seen (the first-contact path), racers are released by a spin
+	// barrier and use different member addresses of the group.
+	rngD := r.Rng("concurrent-first-contact")
+	rounds := r.N(3000, 150000)
+	var overlapRounds, allowedTotal int
+	for i := 0; i < rounds; i++ {
+		burst := 1 + rngD.Intn(3)
+		racers := burst + 1 + rngD.Intn(6)
+		v6 := rngD.Intn(3) == 0
+		q := addrquota.NewQuota(1e-6, burst, 8+rngD.Intn(64))
+		// a few older groups so that the cache is not empty (and sometimes full: eviction path)
+		for k := rngD.Intn(12); k > 0; k-- {
+			q.Blocked(fmt.Sprintf("172.16.%d.1", k))
+		}
+		members := make([]string, racers)
+		for k := range members {
+			if v6 {
+				members[k] = fmt.Sprintf("2001:db8:%x:%x::%x", i>>16&0xffff, i&0xffff, 1+rngD.Intn(0xfffe))
+			} else {
+				members[k] = fmt.Sprintf("10.%d.%d.%d", i>>8&0xff, i&0xff, 1+rngD.Intn(254))
+			}
+		}
+		if i == 0 {
+			r.LogCase(map[string]any{"part": "concurrent-first-contact", "members": members, "burst": burst})
+		}
+		var ready, allowed atomic.Int32
+		var goFlag atomic.Bool
+		var began, ended [16]atomic.Int64
+		var clock atomic.Int64
+		var wg sync.WaitGroup
+		for k := 0; k < racers; k++ {
+			wg.Add(1)
+			go func(k int) {
+				defer wg.Done()
+				ready.Add(1)
+				for !goFlag.Load() {
+				}
+				began[k].Store(clock.Add(1))
+				if !q.Blocked(members[k]) {
+					allowed.Add(1)
+				}
+				ended[k].Store(clock.Add(1))
+			}(k)
+		}
+		for int(ready.Load()) < racers {
+			runtime.Gosched()
+		}
+		goFlag.Store(true)
+		wg.Wait()
+		r.Eval(1)
+		a := int(allowed.Load())
+		allowedTotal += a
+		for k := 1; k < racers; k++ {
+			if began[k].Load() < ended[0].Load() && began[0].Load() < ended[k].Load() {
+				overlapRounds++
+				break
+			}
+		}
+		if a > burst {
+			r.Violation("quota-allows-more-than-burst-on-simultaneous-first-contact", fmt.Sprintf("%d simultaneous events of one never-seen group were allowed, burst is %d and the rate adds nothing", a, burst), map[string]any{"members": members, "burst": burst, "racers": racers})
+			break
+		}
+		if a < burst {
+			r.Violation("quota-blocks-below-burst-on-first-contact", fmt.Sprintf("only %d of %d simultaneous first events of a never-seen group were allowed, burst is %d", a, racers, burst), map[string]any{"members": members, "burst": burst, "racers": racers})
+			break
+		}
+		r.Distinct(fmt.Sprintf("D %d %d %v %d", burst, racers, v6, i))
+	}
+	r.Set("concurrent_first_contact_rounds", rounds)
+	r.Set("concurrent_first_contact_rounds_with_overlapping_calls", overlapRounds)
+	r.Set("concurrent_first_contact_events_allowed", allowedTotal)
 }
